@@ -453,7 +453,7 @@ class CooperativeAwarenessMessage:
         if "track" in tpv.keys():
             self.cam["cam"]["camParameters"]["highFrequencyContainer"][1]["heading"][
                 "headingValue"
-            ] = int(tpv["track"] * 10)
+            ] = int(tpv["track"] * 10) % 3600
         if "epd" in tpv.keys():
             self.cam["cam"]["camParameters"]["highFrequencyContainer"][1]["heading"][
                 "headingConfidence"
@@ -497,18 +497,24 @@ class CooperativeAwarenessMessage:
         dict
             Position confidence ellipse value.
         """
-        position_confidence_ellipse = {
-            "semiMajorAxisLength": int(epx * 100),
-            "semiMinorAxisLength": int(epy * 100),
+        major, minor = (epy, epx) if epy >= epx else (epx, epy)
+        return {
+            "semiMajorAxisLength": self.create_semi_axis_length(major),
+            "semiMinorAxisLength": self.create_semi_axis_length(minor),
             "semiMajorAxisOrientation": 0,
         }
-        if epy >= epx:
-            position_confidence_ellipse = {
-                "semiMajorAxisLength": int(epy * 100),
-                "semiMinorAxisLength": int(epx * 100),
-                "semiMajorAxisOrientation": 0,
-            }
-        return position_confidence_ellipse
+
+    @staticmethod
+    def create_semi_axis_length(error_in_metres: float) -> int:
+        """
+        Translates a position error estimate to a SemiAxisLength value (1 cm units).
+
+        Values above 4093 cm map to outOfRange (4094); the value 0 (doNotUse) is never produced.
+        """
+        value = int(error_in_metres * 100)
+        if value > 4093:
+            return 4094
+        return max(1, value)
 
     # def create_altitude_confidence(self, epv: float) -> str:
     #     """
@@ -610,7 +616,7 @@ class CooperativeAwarenessMessage:
         """
         heading_confidence = 126
         if epd <= 12.5:
-            heading_confidence = int(epd * 10)
+            heading_confidence = max(1, int(epd * 10))
         return heading_confidence
 
     def __str__(self) -> str:
